@@ -69,6 +69,10 @@ KDsAreRealDef ==
   /\ HitsKD(KD_wsAfterRawBeforeElement, <<O(A), [op |-> "raw", v |-> R], O(A)>>) /\ Breaks(<<O(A), [op |-> "raw", v |-> R], O(A)>>)
   (* the dummy writer has neither *)
   /\ Parse(Done(Run(WInit(FALSE, FALSE), <<O(A), O(B), Tx(X), O(A)>>))) = TreeOf(<<O(A), O(B), Tx(X), O(A)>>)
+  (* the document type declaration (m_needToOutputDoctypeDecl) goes out before the first start tag and leaves the tree alone *)
+  /\ LET h == <<O(A), Tx(X), O(B), Cl, Cl>> IN
+        /\ Parse(Done(Run(WInit(TRUE, TRUE), h))) = Parse(Done(Run(WInit(TRUE, FALSE), h)))
+        /\ Run(WInit(TRUE, TRUE), h).out[1].i = "doctype"
   (* indentation between the element children of mixed content: allowed by C08, noted *)
   /\ NOTE_indentInMixedContent(<<O(A), Tx(X), O(A), Cl, O(A)>>)
 ASSUME KDsAreReal == KDsAreRealDef
